@@ -148,6 +148,39 @@ CHECKS = {
             "bracket template is decided under C12. Does not decide: approximation quality/bounds, exactness for invariant affine pairs "
             "(interpolation kernel).",
             "DESIGN.md 4/C13"),
+    "C10": (True, "E5(T10x)+E4",
+            "abstract interpretation of FlowFields.axes/exp/warp_image/sample/curl and the normalize/denormalize family over a polynomial-ring "
+            "domain with per-item symbolic oriented grids; torch.grid_sample and expv recorded",
+            "Decides for D in {2,3}, all 4 axes and batches with distinct grids: axes(b) multiplies item i's vectors by the linear part of its "
+            "own grid's map a -> b (round trip = id, transitivity, label, grids kept); exp() hands expv the vectors in the cube convention "
+            "matching the align_corners it passes and converts back; warp_image() samples at the item grid's identity coordinates plus the "
+            "cube-converted vectors with the matching flag; sample(grid) re-expresses non-world vectors between the old and new grids; "
+            "normalize_flow/denormalize_flow/normalize_grid/denormalize_grid are inverse and scale component j by 2/(n_j-1) resp. 2/n_j for "
+            "channels first/last. Does not decide: interpolated values, curl of non-world axes beyond the conversion, float accuracy.",
+            "DESIGN.md 4/C10"),
+    "C06": (True, "E5(T12,T67)+module model",
+            "abstract interpretation of the real transform classes (nn.Module semantics modelled) with symbolic parameters on grids with "
+            "symbolic geometry, compared as rational-function / trigonometric-ring identities",
+            "Decides for D in {2,3}: every linear model and predefined composite (Parameter and buffer parameters) and every non-rigid model is "
+            "the identity after construction; for symbolic parameters calling a linear model equals its tensor()/matrix() applied, disp() on "
+            "its own grid is A x + b - x at the cube coordinates, points(axes=WORLD) = T[cube->world] o (A,b) o T[world->cube] on an oriented "
+            "symbolic grid, points(grid=g2, axes=GRID, to_axes=WORLD) routes through both grids' maps; SequentialTransform.tensor()/call apply "
+            "members in listed order, predefined composites list scaling/shearing < rotation < translation, composite disp() = forward(coords) - "
+            "coords; MultiLevelTransform adds member displacements. Does not decide: image warping values (torch.grid_sample kernel; the "
+            "coordinate wiring of the transformer modules is part of C05), non-rigid disp on a different grid (interpolation), "
+            "GenericSpatialTransform configurations, groups=N.",
+            "DESIGN.md 4/C06"),
+    "C07": (True, "E5(T67)+module model",
+            "abstract interpretation of inverse()/inv/link_/__copy__ of the real transform classes (nn.Module semantics modelled, shared "
+            "parameter containers) over symbolic parameters; expv recorded for velocity models",
+            "Decides for every invertible linear model and predefined composite (D in {2,3}; Parameter incl. tanh squashing, buffer, callable), "
+            "for inverse(link, update_buffers) in all four modes and .inv: inverse matrix o matrix = identity in both orders as a "
+            "polynomial/trigonometric identity and inverse(t(x)) = x; the transform is unchanged; inverse().inverse() is the transform; after "
+            "a later parameter change (data_(new), in-place write of the shared tensor, or new conditioning input of a linked callable) and "
+            "update(), the inverse taken before still inverts. For SVF/SVFFD: the inverse exponentiates the same (current) velocity field with "
+            "the negated scale and same steps/convention, update_buffers=True refreshes the displacement, double inverse restores. Does not "
+            "decide: the second-order accuracy of scaling-and-squaring inverses (numerical), GenericSpatialTransform.inverse.",
+            "DESIGN.md 4/C07"),
 }
 
 NOT_BUILT_REASON = "static check for this property is designed (DESIGN.md section 4) but not yet built in this revision"
